@@ -76,6 +76,60 @@ func (u *CUuid) Scan(value interface{}) error {
 	return nil
 }
 
+// Consent is a tri-state answer that is its own driver.Valuer / sql.Scanner and stands for SQL NULL by a value
+// that is not its zero value: Unanswered <-> NULL, No (the zero value) <-> 0, Yes <-> 1.  Scanner.Scan hands
+// NULL to a non-pointer column of such a type ("it will handle its own validity"); a decoder that skips NULLs
+// reads Unanswered back as No.
+type Consent int8
+
+const (
+	No         Consent = 0
+	Yes        Consent = 1
+	Unanswered Consent = 2
+)
+
+func (c Consent) Value() (driver.Value, error) {
+	if c == Unanswered {
+		return nil, nil
+	}
+	return int64(c), nil
+}
+
+func (c *Consent) Scan(v interface{}) error {
+	var z int64
+	switch x := v.(type) {
+	case nil:
+		*c = Unanswered
+		return nil
+	case int8:
+		z = int64(x)
+	case int16:
+		z = int64(x)
+	case int32:
+		z = int64(x)
+	case int64:
+		z = x
+	case []byte:
+		return c.Scan(string(x))
+	case string:
+		switch x {
+		case "0":
+			z = 0
+		case "1":
+			z = 1
+		default:
+			return fmt.Errorf("Consent: cannot scan %q", x)
+		}
+	default:
+		return fmt.Errorf("Consent: cannot scan %T", v)
+	}
+	if z != 0 && z != 1 {
+		return fmt.Errorf("Consent: %d is not an answer", z)
+	}
+	*c = Consent(z)
+	return nil
+}
+
 type MyInt32 int32
 type MyU16 uint16
 type MyStr string
@@ -287,6 +341,16 @@ type TJsonOdd struct {
 	B  []byte `sql:",json"`
 }
 
+// TTri: the tri-state type in non-pointer and pointer columns, beside plain columns.
+type TTri struct {
+	Id   int64 `sql:",primary"`
+	Ans  Consent
+	Ansp *Consent
+	Note *string
+	Opt  Consent
+	N    int32
+}
+
 type tableInfo struct {
 	name string
 	zero interface{}
@@ -296,7 +360,7 @@ type tableInfo struct {
 var catalogue = []tableInfo{
 	{"ints", TInts{}, nil}, {"uints", TUints{}, nil}, {"floats", TFloats{}, nil}, {"text", TText{}, nil},
 	{"times", TTime{}, nil}, {"implicit", TImplicit{}, nil}, {"tagged", TTagged{}, nil}, {"mixed", TMixed{}, nil},
-	{"gaps", TGaps{}, nil}, {"namedbytes", TNamedBytes{}, nil}, {"self", TSelf{}, nil}, {"self2", TSelf2{}, nil}, {"jsonwide", TJsonWide{}, nil}, {"jsonodd", TJsonOdd{}, nil},
+	{"gaps", TGaps{}, nil}, {"namedbytes", TNamedBytes{}, nil}, {"self", TSelf{}, nil}, {"self2", TSelf2{}, nil}, {"tri", TTri{}, nil}, {"jsonwide", TJsonWide{}, nil}, {"jsonodd", TJsonOdd{}, nil},
 }
 
 // TSelf2 doubles the weight of the self-scanning types in the catalogue (plain copies of the columns).
@@ -328,6 +392,7 @@ var (
 	ctextType   = reflect.TypeOf(CText{})
 	cuuidType   = reflect.TypeOf(CUuid{})
 	nullStrType = reflect.TypeOf(sql.NullString{})
+	consentType = reflect.TypeOf(Consent(0))
 	rawMsgType  = reflect.TypeOf(json.RawMessage(nil))
 	ipType      = reflect.TypeOf(net.IP(nil))
 	blobType    = reflect.TypeOf(Blob(nil))
